@@ -248,7 +248,24 @@ def export_tables():
         qubit_containers = True
     else:
         raise TranslatorError(f"_qasm_str: treatment of controls / targets not recognised: {head}")
+    # Gate._to_qasm: the three statements of the model's `gateLine` (name lookup, refusal of a classical condition, the
+    # call of `_qasm_str`), and HOW the condition is detected: truthiness (a numpy array [0] is falsy) or length
+    gcls, _ = _src("operations/gateclass.py")
+    gto = _find(_find(gcls.body, ast.ClassDef, "Gate").body, ast.FunctionDef, "_to_qasm")
+    gst = [ast.unparse(x) for x in gto.body if not (isinstance(x, ast.Expr) and isinstance(x.value, ast.Constant))]
+    g_head = ["qasm_gate = qasm_out.qasm_name(self.name)",
+              "if not qasm_gate:\n    error_str = \"{} gate's qasm defn is not specified\".format(self.name)\n"
+              "    raise NotImplementedError(error_str)"]
+    g_tail = (":\n    err_msg = 'Exporting controlled gates is not implemented yet.'\n    raise NotImplementedError(err_msg)\n"
+              "else:\n    qasm_out.output(qasm_out._qasm_str(qasm_gate, self.controls, self.targets, self.arg_value))")
+    if gst == g_head + ["if self.classical_controls" + g_tail]:
+        cctrl_len = False
+    elif gst == g_head + ["if self.classical_controls is not None and len(self.classical_controls) > 0" + g_tail]:
+        cctrl_len = True
+    else:
+        raise TranslatorError(f"Gate._to_qasm not recognised: {gst}")
     return {
+        "cctrl_len": cctrl_len,
         "qubit_containers": qubit_containers,
         "pads_exp": pads_exp,
         "name_map": name_map, "defns": defns, "comment_fmt": split_fmt(comment_fmt, "definition comment", 1),
@@ -633,6 +650,10 @@ def render():
     A("lists, tuples or arrays of Python or numpy integers (otherwise: lists of Python ints only, which is what the")
     A("model's `List Nat` stands for; the harness sends other containers only to a tree with this flag) -/")
     A("def qubitContainersOk : Bool := " + ("true" if e["qubit_containers"] else "false"))
+    A("/-- `Gate._to_qasm` refuses a gate when `classical_controls` is not None and has positive LENGTH (otherwise: when it")
+    A("is truthy — a numpy array `[0]` is falsy and the gate is exported without its condition; the model's")
+    A("`cctrl : Option (List Nat)` stands for a list, the harness sends other containers only to a tree with this flag) -/")
+    A("def cctrlLenTest : Bool := " + ("true" if e["cctrl_len"] else "false"))
     A("/-- `_qasm_str`: container types joined element-wise -/")
     A("def seqKinds : List Str := " + lean_list([lean_str(k) for k in e["seq_kinds"]]))
     A("")
